@@ -4,7 +4,7 @@ CONSTANTS
   OrderlyMode = "reconnect"
   Params <- ParamsT
   MaxAtt = 4
-  StepBehs = {"refuse", "rst", "stall", "bad", "mute", "close_orderly", "close_abrupt", "healthy", "down"}
+  StepBehs = {"refuse", "rst", "stall", "bad", "mute", "close_orderly", "close_abrupt", "drop_unserved", "healthy", "down"}
   CloseDs = {0, 600}
   MaxStall = 1
   MaxMute = 2
